@@ -82,7 +82,7 @@ Definition stF2 (ff : Z) : xstate :=
    code the first batch after the restart ends at height 2000, inside the fast-forwarded records.) *)
 Definition fxF : fixes :=
   {| f_removable := true; f_rollback := true; f_import_retry := true; f_start_reorg := true; f_rollback_order := true;
-     f_import_tipcheck := false; f_removable_debit := true; f_ff_check := true |}.
+     f_import_tipcheck := false; f_removable_debit := true; f_ff_check := true; f_keystore_undo := true |}.
 Definition stF3 (ff : Z) : xstate := fold_left (fun s _ => fst (import_batch fxF pF 2 chainC s 1)) [tt; tt; tt; tt] (stF2 ff).
 
 Theorem ff_stale_import_refuted :
